@@ -1,6 +1,7 @@
 package main
 
 import (
+	"go/token"
 	"fmt"
 	"go/types"
 	"strings"
@@ -85,11 +86,13 @@ func (e *Eng) obligations() {
 
 	// ---- C09: ParseNDStream result plumbing
 	e.ndstream()
+	e.ndstreamChunks()
 
 	// ---- C16: who reads Message
 	e.messageReaders()
 	// ---- C15: state carried by a reused parser object
 	e.reuseObligations()
+	e.serializerReuse()
 	// ---- C18: the private Ryu copy is the standard library's
 	e.congruence(e.repo)
 	_ = C20
@@ -198,6 +201,54 @@ func (e *Eng) poolDiscipline() {
 			}
 		}
 		e.add("pool#reset-after-get", k, props, ok, detail)
+	}
+	// Put is the last use: after an object went back into a shared pool, the function that put it does not call a
+	// method on it any more (another goroutine may already have taken it)
+	for _, fn := range e.allFuncs() {
+		puts := find(fn, isCall("(*sync.Pool).Put"))
+		if len(puts) == 0 {
+			continue
+		}
+		ok, detail := true, fmt.Sprintf("%d Put sites", len(puts))
+		for _, p := range puts {
+			c := p.b.Instrs[p.i].(*ssa.Call)
+			if len(c.Call.Args) < 2 {
+				continue
+			}
+			// the object: value converted to interface
+			obj := c.Call.Args[1]
+			if mi, isMI := obj.(*ssa.MakeInterface); isMI {
+				obj = mi.X
+			}
+			// a captured / address-taken variable is re-loaded at every use: compare the variable, not the load
+			root := func(v ssa.Value) ssa.Value {
+				if u, isU := v.(*ssa.UnOp); isU && u.Op == token.MUL {
+					return u.X
+				}
+				return v
+			}
+			ro := root(obj)
+			usesObj := func(in ssa.Instruction) bool {
+				cc := callCommon(in)
+				if cc == nil || in == ssa.Instruction(c) {
+					return false
+				}
+				for _, a := range cc.Args {
+					if root(a) == ro {
+						return true
+					}
+				}
+				return cc.IsInvoke() && root(cc.Value) == ro
+			}
+			reassigned := func(in ssa.Instruction) bool {
+				st, isSt := in.(*ssa.Store)
+				return isSt && st.Addr == ro
+			}
+			if r, w := reachWithout(p, usesObj, reassigned); r {
+				ok, detail = false, "object put into the pool at "+e.pos(c)+" is still used at "+e.pos(w)
+			}
+		}
+		e.add("pool#put-is-last-use", funcKey(fn), props, ok, detail)
 	}
 }
 
